@@ -69,7 +69,9 @@ func init() {
 			}
 			t := topic(ex, ex.nonNil(fr, args[0]))
 			data, _ := args[2].([]Value)
-			t.published = append(t.published, append([]Value{}, data...))
+			// (as the library: the message keeps the caller's slice, it is not copied —
+			// a caller that reuses the buffer rewrites what is still queued)
+			t.published = append(t.published, data)
 			return Iface{}
 		})
 		p.reg("(*"+ps+".Subscription).Cancel", func(ex *Exec, fr *Frame, args []Value) Value {
